@@ -196,6 +196,12 @@ func (p c07) RunBatch(c *fw.Ctx) {
 			table = append(table, "x = "+a+"; func f() {"+name+"(x)}; f()", "x = "+a+"; y = 1; func f() {"+name+"(y, x)}; f()")
 		}
 	}
+	// every extension handed containers whose map KEYS are of every kind (native conversion of keys: json, sprintf, keys, ...)
+	for _, name := range names {
+		for _, a := range V {
+			table = append(table, name+"({"+a+": 1})", name+"(\"%v\", {"+a+": 1, 2: 3})", name+"(\"<%v>\", [{1: {"+a+": \"v\"}}])", name+"({"+a+": "+a+"}, {"+a+": 1})")
+		}
+	}
 	for i, src := range table {
 		if i%c.NBatches == c.Batch {
 			p.run(c, src)
